@@ -86,3 +86,13 @@ Example C09_per_instance_example :
   Forall (fun e => (ev_inst e < 3)%nat) ex_rounds /\
   map (client_of (prepare_pool c)) [0; 1; 2] = [COwn 0; COwn 1; COwn 2].
 Proof. split; [reflexivity|]. split; [|reflexivity]. repeat constructor. Qed.
+
+(* The judge of the scripted histories (case kind `hist`: real guns, clients and transports driven event by event) holds
+   of every history of the model: connection count, every request logged once, one connection per instance. *)
+Theorem C09_hist_spec : forall c keepalive max_idle n h st,
+  (0 < max_idle)%nat ->
+  Forall (fun e => (ev_inst e < n)%nat) h ->
+  t_run (client_of (prepare_pool c)) keepalive max_idle t_init h = Some st ->
+  hist_ok keepalive (sc_enabled c) n (requests_of h) (t_dials st) (rev (t_log st)) = true.
+Proof. exact hist_ok_sound. Qed.
+Print Assumptions C09_hist_spec.
